@@ -213,6 +213,9 @@ def findings_of(line, res, cls="", origin=""):
                 if "/registry/" in base:
                     base = re.sub(r"^.*/registry/src/[^/]+/", "", base)
                     base = re.sub(r"-\d+\.\d+[^/]*/", "/", base, count=1)
+                elif re.search(r"/build/[^/]+-[0-9a-f]{16}/out/", base):
+                    # a file generated by a build script (LALRPOP's grammar.rs): drop the target dir and cargo's hash
+                    base = re.sub(r"^.*/build/([^/]+)-[0-9a-f]{16}/out/", r"generated/\1/", base)
                 else:
                     base = re.sub(r"^.*?/(core|parser|vector|package|lsp|cli)/", r"\1/", base)
                 out.append(("panic:%s:%s" % (base, norm_msg(msg, 60)), "%s panicked: %s" % (stage, detail)))
